@@ -76,7 +76,7 @@ func init() {
 		Cases:         func(t string) int { return tierN(t, 256, 3000) },
 		MinNontrivial: func(t string) int { return tierN(t, 32, 400) },
 		Run: func(c *fw.Case) {
-			if c.Index%16 == 15 {
+			if c.Index%8 == 7 {
 				// lineage recorded by the v1.2.0 upgrade (staged legacy state, see C16)
 				runC16(c)
 				c.KeepViolations("C17/")
